@@ -200,3 +200,21 @@ package net
 //@ interface (e EndPoint) AddHandler(f Filter, c Consumer, cl Closer) (result int)
 //@   trusted
 //@   pure
+
+// Abstract endpoint as a message sink: ghost record of the last message handed to Send and the
+// number of handlers registered through the interface.
+//@ ghostfield sentcount int
+//@ ghostfield lastid int
+//@ ghostfield lasttype int
+//@ ghostfield lastservice int
+//@ ghostfield lastobject int
+//@ ghostfield lastaction int
+//@ ghostfield nhandlers int
+//@ interface (e EndPoint) Send(m Message) (err error)
+//@   trusted
+//@   modifies e.sentcount, e.lastid, e.lasttype, e.lastservice, e.lastobject, e.lastaction
+//@   ensures e.sentcount == old(e.sentcount) + 1 && e.lastid == m.Header.ID && e.lasttype == m.Header.Type && e.lastservice == m.Header.Service && e.lastobject == m.Header.Object && e.lastaction == m.Header.Action
+//@ interface (e EndPoint) MakeHandler(f Filter, queue chan<- *Message, cl Closer) (result int)
+//@   trusted
+//@   modifies e.nhandlers
+//@   ensures e.nhandlers == old(e.nhandlers) + 1
